@@ -3,6 +3,7 @@ import DispensoVerif.Model.Bits
 import DispensoVerif.Model.Event
 import DispensoVerif.Model.AsyncReq
 import DispensoVerif.Model.Spsc
+import DispensoVerif.Model.Mpmc
 
 /-! Handlers of the dvdriver line protocol. Core Lean only. -/
 namespace Driver
@@ -16,6 +17,7 @@ inductive Sess where
   | event (s : Conc.State Event.proto)
   | asyncreq (s : Conc.State AsyncReq.proto)
   | spsc (K : Nat) (s : Conc.State (Spsc.proto K))
+  | mpmc (K : Nat) (s : Conc.State (Mpmc.proto K))
 
 structure St where
   sess : Sess := .none
@@ -75,6 +77,10 @@ def traceBegin (args : List String) : Sess × String :=
     | some [v] => (.event (Event.init v), "ok")
     | _ => (.failed, "bad-params")
   | "asyncreq" :: _ => (.asyncreq AsyncReq.init, "ok")
+  | "mpmc" :: rest =>
+    match nats rest with
+    | some [K] => (.mpmc K (Mpmc.init K), "ok")
+    | _ => (.failed, "bad-params")
   | "spsc" :: rest =>
     match nats rest with
     | some [K] => (.spsc K (Spsc.init K), "ok")
@@ -88,6 +94,10 @@ def traceLine (sess : Sess) (toks : List String) : Sess × String :=
   | .event s =>
     match Trace.acceptLine Event.binding s toks with
     | .ok s' => (.event s', "ok")
+    | .error e => (.failed, "MISMATCH " ++ e)
+  | .mpmc K s =>
+    match Trace.acceptLine (Mpmc.binding K) s toks with
+    | .ok s' => (.mpmc K s', "ok")
     | .error e => (.failed, "MISMATCH " ++ e)
   | .spsc K s =>
     match Trace.acceptLine (Spsc.binding K) s toks with
